@@ -56,11 +56,19 @@ CfgAt(e, t) == LET x == e.expect IN [scan |-> x.scan, vpn |-> x.vpn, hasNet |-> 
 RecMatches(x, r, w) == CASE x.scan = "arp" -> r.ip = w.ip /\ r.mac = w.mac
                          [] x.scan \in {"udp", "icmp"} -> r.ip = w.ip /\ r.type = w.type /\ r.code = w.code /\ r.ttl = w.ttl
                          [] OTHER -> r.ip = w.ip /\ r.port = w.port /\ r.flags = w.flags
+\* A frame injected earlier than LatUs before the pass that is running at that moment is closed (last probe of the pass + exit delay) must
+\* be reported; one injected later (a harness that was held up injects late) may or may not be: sx may be gone already.
+LatUs == 150000
+CloseOf(e, t) == LET x == e.expect c == ChunkAt(e, t) IN IF Hi(x, c) = 0 \/ Hi(x, c) > Len(e.probes) THEN 0 ELSE e.probes[Hi(x, c)].t + x.delayUs
 ReplyOK(e) == LET x == e.expect
                   inj == {i \in 1..Len(e.injected) : e.injected[i].done}
-                  shaped == {i \in inj : WD!ReplyShape(CfgAt(e, e.injected[i].t), e.injected[i].bytes)} IN
-   /\ Len(e.records) = Cardinality(shaped)
-   /\ \A i \in shaped : Cardinality({k \in 1..Len(e.records) : RecMatches(x, e.records[k], WD!RecordOf(CfgAt(e, e.injected[i].t), e.injected[i].bytes))}) = 1
+                  shaped == {i \in inj : WD!ReplyShape(CfgAt(e, e.injected[i].t), e.injected[i].bytes)}
+                  must == {i \in shaped : e.injected[i].t + LatUs <= CloseOf(e, e.injected[i].t)}
+                  rec(i) == WD!RecordOf(CfgAt(e, e.injected[i].t), e.injected[i].bytes) IN
+   /\ Len(e.records) >= Cardinality(must) /\ Len(e.records) <= Cardinality(shaped)
+   /\ \A i \in must : Cardinality({k \in 1..Len(e.records) : RecMatches(x, e.records[k], rec(i))}) >= 1
+   /\ \A k \in 1..Len(e.records) : \E i \in shaped : RecMatches(x, e.records[k], rec(i))
+   /\ (must = shaped => \A i \in shaped : Cardinality({k \in 1..Len(e.records) : RecMatches(x, e.records[k], rec(i))}) = Cardinality({j \in shaped : rec(j) = rec(i)}))
 \* C15: spacing of probe capture times
 SpacingOK(e) == LET x == e.expect per == (x.rate.winMs * 1000 + x.rate.winNs \div 1000) \div x.rate.n IN
    \A i \in 1..Len(e.probes) : \A j \in (i + 1)..Len(e.probes) :
